@@ -97,6 +97,9 @@ func monitor(cs caseSpec, o obs) *cf.Monitor {
 					return fail("identity:heartbeat", "call %d: Heartbeat carries (%d,%d), session is (%d,%d)", ci, x.M, x.G, sess[0], sess[1])
 				}
 			case "fetchoff":
+				if _, dup := fetched[x.P]; dup {
+					fetchFailed = true // the plan names the partition twice: ManagePartition refuses the second one
+				}
 				fetched[x.P] = x.Stored
 				if fi < len(co.Fetches) && !co.Fetches[fi] {
 					fetchFailed = true
